@@ -1,6 +1,7 @@
 use super::referent_rule::{GlobalRules, ReferentRuleError, RuleRegistration};
 use crate::check_var::CheckHint;
 use crate::maybe::Maybe;
+use crate::rule::nth_child::SerializableNthChild;
 use crate::rule::{self, Rule, RuleSerializeError, SerializableRule};
 use crate::rule_core::{RuleCoreError, SerializableRuleCore};
 use crate::transform::Transformation;
@@ -139,6 +140,14 @@ fn visit_dependent_rule_ids<'a, T: DependentRule>(
   }
   if let Maybe::Present(not) = &rule.not {
     visit_dependent_rule_ids(not, sort)?;
+  }
+  // nthChild's ofRule is matched against the node itself as well
+  if let Maybe::Present(SerializableNthChild::Complex {
+    of_rule: Some(of_rule),
+    ..
+  }) = &rule.nth_child
+  {
+    visit_dependent_rule_ids(of_rule, sort)?;
   }
   Ok(())
 }
